@@ -134,7 +134,7 @@ func (p *parser) parseRegExpLiteral() *ast.RegExpLiteral {
 	}
 
 	flags := ""
-	if p.token == token.IDENTIFIER { // gim
+	if p.token == token.IDENTIFIER && !p.implicitSemicolon { // gim; an identifier on the next line starts a new statement
 		flags = p.literal
 		endOffset = p.chrOffset
 		p.next()
